@@ -1,4 +1,5 @@
 """C08 - every storage is a uid-keyed map; failed mutations change nothing."""
+import sys
 import proto
 from common import capped, Failure, Outcome, Broken
 from gen import pick
@@ -23,6 +24,20 @@ KINDS = ['memory', 'sqlite', 'redis-json', 'redis-pickle', 'mongo',
          'observable:memory', 'observable:sqlite', 'observable:redis-pickle', 'observable:mongo']
 
 
+TUPLE_UID = ('t', 2)
+
+
+def uids_for(kind):
+    """the uid universe of a history: plain strings everywhere, plus a tuple uid (a composite key) where the backend
+    keeps Python objects as keys (the in-memory storage and wrappers over it)"""
+    return UIDS + [TUPLE_UID] if kind.split(':')[-1] == 'memory' else UIDS
+
+
+def tok(u):
+    """protocol token of a uid (the model treats uids as opaque keys)"""
+    return proto.enc_str(u if isinstance(u, str) else '\u03b6')       # one non-string uid in the universe: one spare letter
+
+
 def cfg_of(kind):
     base = kind.split(':')[-1]
     wrapper = kind.split(':')[0] if ':' in kind else None
@@ -36,12 +51,24 @@ def gen_policy(rng, uid, tag):
     """small policies; `bad` ones carry an unbalanced pattern that SQL / Mongo cannot convert"""
     r = rng.random()
     desc = 'v%d' % tag
+    if rng.random() < 0.15:
+        # the same policy but for the length of its element lists: one version's list is a prefix of the other's
+        return Policy(uid, actions=['get', 'put', 'del'][:rng.randint(1, 3)], subjects=['s1', 's2'][:rng.randint(1, 2)],
+                      resources=['r', 'r2', 'r3'][:rng.randint(1, 3)], effect='allow', description='fixed'), False
     if rng.random() < 0.25:
         # same scalar columns every time: successive versions under one uid differ in their elements only
         return Policy(uid, actions=[pick(rng, ['get', 'put', '<get|put>', 'del'])], subjects=[pick(rng, ['s1', 's<.*>', 's2'])],
                       resources=['r'], effect='allow', description='fixed'), False
     if r < 0.35:
         return Policy(uid, actions=[pick(rng, ['get', '<get|put>', 'x'])], subjects=['s<.*>'], resources=['r'],
+                      effect=pick(rng, ['allow', 'deny']), description=desc), False
+    if r < 0.42:
+        # a rule nested deeply (compositions inside compositions): stored and read back whole
+        from vakt.rules import Not, Or
+        deep = Eq(tag)
+        for i in range(rng.randint(8, 40)):
+            deep = pick(rng, [lambda x: Not(Not(x)), lambda x: And(x), lambda x: Or(x), lambda x: And(x, Any())])(deep)
+        return Policy(uid, actions=[Any()], subjects=[Any()], resources=[Any()], context={'k': deep},
                       effect=pick(rng, ['allow', 'deny']), description=desc), False
     if r < 0.7:
         return Policy(uid, actions=[Eq('get')], subjects=[{'n': In('a', 'b')}, Any()], resources=[And(Greater(1), Eq(2))],
@@ -70,6 +97,8 @@ def classify(exc):
 def run_history(kind, rng, nmut, out):
     """returns (protocol line, impl outputs, description) or None"""
     sorted_, eager, rejects = cfg_of(kind)
+    uids = uids_for(kind)
+    big = kind.split(':')[-1] == 'memory'
     st = stores.make(kind)
     pool = []            # content id -> key
     keys = {}
@@ -83,7 +112,7 @@ def run_history(kind, rng, nmut, out):
         return keys[k]
 
     def show_pols(ps):
-        return 'pols ' + ','.join('%s:%d' % (proto.enc_str(p.uid), pid_of(p)) for p in ps)
+        return 'pols ' + ','.join('%s:%d' % (tok(p.uid), pid_of(p)) for p in ps)
 
     def do(op, *a):
         try:
@@ -109,34 +138,35 @@ def run_history(kind, rng, nmut, out):
     tag = 0
     for _ in range(nmut):
         r = rng.random()
-        u = pick(rng, UIDS)
+        u = pick(rng, uids)
         if r < 0.4:
             tag += 1
             p, bad = gen_policy(rng, u, tag)
             ok = not (bad and rejects)
-            ops.append('add %s %d %s' % (proto.enc_str(u), pid_of(p), 'T' if ok else 'F'))
+            ops.append('add %s %d %s' % (tok(u), pid_of(p), 'T' if ok else 'F'))
             outs.append(do('add', p))
             human.append('add %s v%d%s' % (u, tag, ' (malformed)' if bad else ''))
         elif r < 0.7:
             tag += 1
             p, bad = gen_policy(rng, u, tag)
             ok = not (bad and rejects)
-            ops.append('upd %s %d %s' % (proto.enc_str(u), pid_of(p), 'T' if ok else 'F'))
+            ops.append('upd %s %d %s' % (tok(u), pid_of(p), 'T' if ok else 'F'))
             outs.append(do('upd', p))
             human.append('update %s v%d%s' % (u, tag, ' (malformed)' if bad else ''))
         elif r < 0.9:
-            ops.append('del %s' % proto.enc_str(u))
+            ops.append('del %s' % tok(u))
             outs.append(do('del', u))
-            human.append('delete %s' % u)
+            human.append('delete %s' % (u,))
         else:
-            l, o = pick(rng, [(0, 0), (-1, 0), (1, -1), (0, 3), (3, 100)])
+            l, o = pick(rng, [(0, 0), (-1, 0), (1, -1), (0, 3), (3, 100)] +
+                        ([(sys.maxsize, 1), (2 ** 70, 0), (1, 2 ** 64)] if big else []))
             ops.append('all %d %d' % (l, o))
             outs.append(do('all', l, o))
             human.append('get_all(%d,%d)' % (l, o))
             continue
         # read the whole store back three ways
-        for uu in UIDS:
-            ops.append('get %s' % proto.enc_str(uu))
+        for uu in uids:
+            ops.append('get %s' % tok(uu))
             outs.append(do('get', uu))
         for l, o in ((2, 0), (2, 2), (2, 4), (1, 1), (5, 0)):
             ops.append('all %d %d' % (l, o))
